@@ -360,6 +360,9 @@ def r8(ctx, facts):
         raise AnchorLost("no store into MetadataUpdate.metadata_changes found")
 
 
+CONDITIONAL_STORES = ("or_insert", "or_insert_with", "or_insert_with_key", "try_insert", "get_or_insert", "get_or_insert_with", "or", "or_else", "xor", "insert_if_absent")
+
+
 def r9(ctx, facts):
     r = ctx.rule("R9", "whatever a merge_* function is given ends up in the pending update on every path (nothing fetched is silently dropped)", floor=4)
     n = 0
@@ -370,6 +373,7 @@ def r9(ctx, facts):
         for p in range(2, b.argc + 1):
             n += 1
             use_bbs, work, seen = set(), [p], set()
+            cond_bbs = set()
             while work:
                 l = work.pop()
                 if l in seen:
@@ -385,6 +389,12 @@ def r9(ctx, facts):
                         else:
                             work.append(st[1][0])
                     elif where[0] == "arg":
+                        callee = b.term(ub)[1].get("def", "") or ""
+                        if callee.split("::")[-1] in CONDITIONAL_STORES:
+                            # `entry(k).or_insert(v)` / `try_insert` / `get_or_insert` keep what is there and DROP v when the slot is taken:
+                            # the first value wins, the later one - the newer - is lost. Not a store of the payload.
+                            cond_bbs.add(ub)
+                            continue
                         use_bbs.add(ub)
             pdisc = ("disc", dj.disc_root((p, ())))
             is_opt = b.local_ty(p).startswith("core::option::Option<")
@@ -399,8 +409,8 @@ def r9(ctx, facts):
                 return False
             escaped = dj.feasible_reach(0, removed_nodes=use_bbs, drop_state=nothing_to_merge) & set(b.exits)
             r.instance("%s:%s-is-merged-on-every-path" % (fn_short(b.path), b.local_name(p) or "arg%d" % p), bool(use_bbs) and not escaped,
-                       "%s can return without storing or handing on its `%s` argument: the value the producer merged in never reaches the consumer, although modify() reports success"
-                       % (fn_short(b.path), b.local_name(p) or "arg%d" % p), b.span)
+                       "%s can return without storing or handing on its `%s` argument%s: the value the producer merged in never reaches the consumer, although modify() reports success"
+                       % (fn_short(b.path), b.local_name(p) or "arg%d" % p, " (it is only offered to a keep-the-first insertion such as entry().or_insert(): the newer value is dropped when one is pending)" if cond_bbs else ""), b.span)
     if n < 4:
         raise AnchorLost("MetadataUpdate::merge_* functions not found (%d payload arguments)" % n)
 
